@@ -244,6 +244,18 @@ prop('C14',
   "Not decided: numeric correctness of the one's-complement sum, value round trips, option/TLV encoders (DNS, DHCP, ND options) beyond header formats.",
   "custom AST checker: parse/hdr byte-layout comparison, constant evaluation of bit-field pack/extract expressions over a sample domain, must-precede ordering, format arithmetic, bytes/str typing", "DESIGN.md 5/C14")
 
+prop('C15',
+  "Static analysis of /repo's current source (partial property): an interprocedural exception-escape analysis over pox/lib/packet rooted "
+  "at ethernet.parse (constructors -> parse, parse_next -> registered ethertype parsers, protocol dispatch, option/TLV helpers). Raising "
+  "primitives - struct.unpack / unpack_from reads (need from calcsize and slice bounds), constant and variable indices into the frame "
+  "buffer, explicit raises, asserts on wire values, and `from . import X` class-vs-module attribute misuse - must each be proven in "
+  "range by dominating length guards or be caught by a try on every call chain from the root (fixpoint over the call graph); slices "
+  "handed to struct.unpack have exactly calcsize(fmt) bytes; parse() and hdr() use the same struct code for every field (what parsed can "
+  "be re-serialised); __str__ goes through packet_base's catch-all; parser loops are checked for progress. Decides these conditions, "
+  "not totality of parsing for every byte string.",
+  "Not decided: totality as such (arbitrary attribute errors, arithmetic on parsed values, recursion depth), printing/re-serialisation of partially parsed chains beyond struct codes, dispatch through registries the resolver cannot follow.",
+  "custom AST/CFG checker: interprocedural may-raise/escape analysis with try-containment over a resolved call graph, guard dominance with format arithmetic, parse/hdr code agreement", "DESIGN.md 5/C15")
+
 NOT_APPLICABLE = {
   'C16': "Address types: the statement is about numeric/textual agreement over the whole address domain (byte order, mask arithmetic, CIDR parsing, zero-run compression, round trips, rejection of malformed text) - results of computations on runtime values; no shape-level rule is a necessary and telling condition for it (DESIGN.md section 7).",
 }
